@@ -1,6 +1,7 @@
 package main
 
 import (
+	"go/constant"
 	"fmt"
 	"go/ast"
 	"go/token"
@@ -110,10 +111,82 @@ func ruleCallVM(c *Ctx, rule string) {
 // is part of the session).
 func ruleEvalSaveAllPaths(c *Ctx, rule string, run *ssa.Function, vmRunCall ssa.Instruction) {
 	l := c.L
+	from := afterStartedRun(l, vmRunCall)
 	for _, f := range []string{"Locals", "ModulesCache"} {
-		_, ok := mustPassBefore(vmRunCall, viaDeep(storesStructField(l, modPath, "Eval", f)), isReturn)
+		pred := viaDeep(storesStructField(l, modPath, "Eval", f))
+		_, ok := mustPassBefore(from, pred, isReturn)
+		if pred(from) {
+			ok = true
+		}
 		c.Check(rule, "Eval.Run | r."+f+" saved after the run", l.Pos(vmRunCall.Pos()), ok, "stored on every path from the run to a return",
 			"a path from the VM run to a return of Eval.Run (e.g. the failing-fragment path) does not store r."+f+": what the fragment did before it failed is lost for the next fragment")
+	}
+}
+
+// ---- C10/save-only-if-ran (also C09) ---------------------------------------------------------------
+// The session's runner refuses to start the VM when the context is already
+// done.  The VM's stack is then still what the previous Clear left behind (nil
+// slots): reading the locals back from it replaces every variable of the
+// session by a nil Object, and the next fragment that touches one crashes.  If
+// the runner has a path that returns without starting the VM, the stores that
+// take r.Locals / r.ModulesCache back from the VM are reached only on the
+// branch on which the runner reported that it did start it.
+func ruleEvalSaveOnlyIfRan(c *Ctx, rule string, run *ssa.Function, vmRunCall ssa.Instruction) {
+	l := c.L
+	cl, ok := vmRunCall.(*ssa.Call)
+	if !ok {
+		return
+	}
+	callee := cl.Call.StaticCallee()
+	vmRun := l.Method(modPath, "VM", "Run")
+	if callee == nil || len(callee.Blocks) == 0 || vmRun == nil || callee == vmRun {
+		c.Ok(rule, "Eval.Run | the runner always starts the VM", l.Pos(vmRunCall.Pos()), "the VM run is called directly")
+		return
+	}
+	starts := func(ins ssa.Instruction) bool {
+		found := false
+		if ci, ok := ins.(ssa.CallInstruction); ok {
+			g := ci.Common().StaticCallee()
+			if g == nil {
+				if mc, ok := ci.Common().Value.(*ssa.MakeClosure); ok {
+					g, _ = mc.Fn.(*ssa.Function)
+				}
+			}
+			if g == vmRun {
+				found = true
+			} else if g != nil && g.Parent() == callee {
+				eachInstr(g, func(x ssa.Instruction) {
+					if xc, ok := x.(ssa.CallInstruction); ok && xc.Common().StaticCallee() == vmRun {
+						found = true
+					}
+				})
+			}
+		}
+		return found
+	}
+	first := callee.Blocks[0].Instrs[0]
+	_, always := mustPassBefore(first, starts, func(x ssa.Instruction) bool {
+		r, ok := x.(*ssa.Return)
+		return ok && r.Pos().IsValid()
+	})
+	if always || starts(first) {
+		c.Ok(rule, "Eval.Run | the runner always starts the VM", l.Pos(vmRunCall.Pos()), "every path of the runner starts the VM")
+		return
+	}
+	from := afterStartedRun(l, vmRunCall)
+	for _, f := range []string{"Locals", "ModulesCache"} {
+		guarded := from != vmRunCall
+		if guarded {
+			eachInstr(run, func(ins ssa.Instruction) {
+				if storesStructField(l, modPath, "Eval", f)(ins) && instrDominates(vmRunCall, ins) {
+					if !(from.Block() == ins.Block() || from.Block().Dominates(ins.Block())) {
+						guarded = false
+					}
+				}
+			})
+		}
+		c.Check(rule, "Eval.Run | r."+f+" taken back from the VM", l.Pos(vmRunCall.Pos()), guarded, "only on the branch on which the runner reports that it started the VM",
+			"the runner can return without starting the VM (context already done), and r."+f+" is then still read back from the VM: the stack holds what the previous Clear left (nil slots), so a refused run replaces every variable of the session by a nil Object and the next fragment that touches one fails with a nil dereference")
 	}
 }
 
@@ -1530,4 +1603,101 @@ func ruleInvokerAssert(c *Ctx, rule string) {
 	if n == 0 {
 		c.Ok(rule, "no unchecked assertion in the methods of Invoker", "-", "")
 	}
+}
+
+// afterStartedRun: the instruction from which "after the VM ran" is judged.
+// When the session's runner reports, in a bool result, whether it started the
+// VM at all (a run refused because the context was already done leaves the VM
+// untouched: there is nothing to take back), and the caller branches on that
+// result, it is the first instruction of the "started" branch - provided the
+// runner returns true on every path on which it starts the VM.  Otherwise the
+// call itself.
+func afterStartedRun(l *Loaded, vmRunCall ssa.Instruction) ssa.Instruction {
+	cl, ok := vmRunCall.(*ssa.Call)
+	if !ok {
+		return vmRunCall
+	}
+	callee := cl.Call.StaticCallee()
+	if callee == nil || len(callee.Blocks) == 0 || cl.Referrers() == nil {
+		return vmRunCall
+	}
+	vmRun := l.Method(modPath, "VM", "Run")
+	for _, r := range *cl.Referrers() {
+		ex, ok := r.(*ssa.Extract)
+		if !ok || ex.Referrers() == nil {
+			continue
+		}
+		if b, ok := ex.Type().Underlying().(*types.Basic); !ok || b.Kind() != types.Bool {
+			continue
+		}
+		// the runner's result ex.Index is true wherever the VM is started
+		good := true
+		starts := func(ins ssa.Instruction) bool {
+			found := false
+			if ci, ok := ins.(ssa.CallInstruction); ok {
+				g := ci.Common().StaticCallee()
+				if g == nil {
+					if mc, ok := ci.Common().Value.(*ssa.MakeClosure); ok {
+						g, _ = mc.Fn.(*ssa.Function)
+					}
+				}
+				if g == vmRun {
+					found = true
+				} else if g != nil && g.Parent() == callee {
+					eachInstr(g, func(x ssa.Instruction) {
+						if xc, ok := x.(ssa.CallInstruction); ok && xc.Common().StaticCallee() == vmRun {
+							found = true
+						}
+					})
+				}
+			}
+			return found
+		}
+		var startBlocks []*ssa.BasicBlock
+		eachInstr(callee, func(ins ssa.Instruction) {
+			if starts(ins) {
+				startBlocks = append(startBlocks, ins.Block())
+			}
+		})
+		if len(startBlocks) == 0 {
+			continue
+		}
+		eachInstr(callee, func(ins ssa.Instruction) {
+			ret, ok := ins.(*ssa.Return)
+			if !ok || ex.Index >= len(ret.Results) || !ret.Pos().IsValid() {
+				return
+			}
+			v := returnedValue(ret, ex.Index)
+			// per incoming path: a phi edge whose predecessor is reached from a start block must be true
+			isTrue := func(x ssa.Value) bool {
+				k, ok := x.(*ssa.Const)
+				return ok && k.Value != nil && k.Value.Kind() == constant.Bool && constant.BoolVal(k.Value)
+			}
+			if phi, ok := v.(*ssa.Phi); ok {
+				for i, e := range phi.Edges {
+					p := phi.Block().Preds[i]
+					for _, sb := range startBlocks {
+						if (sb == p || blockReaches(sb, p)) && !isTrue(e) {
+							good = false
+						}
+					}
+				}
+			} else {
+				for _, sb := range startBlocks {
+					if (sb == ret.Block() || blockReaches(sb, ret.Block())) && !isTrue(v) {
+						good = false
+					}
+				}
+			}
+		})
+		if !good {
+			continue
+		}
+		for _, rr := range *ex.Referrers() {
+			if iff, ok := rr.(*ssa.If); ok {
+				return iff.Block().Succs[0].Instrs[0]
+			}
+		}
+	}
+	return vmRunCall
 }
